@@ -99,6 +99,7 @@ func (s *IndexStorage) Index() (i *index.Index, err error) {
 
 	f, err := s.dir.Index()
 	if err != nil {
+		s.clearCache()
 		if errors.Is(err, os.ErrNotExist) {
 			return idx, nil
 		}
@@ -122,6 +123,10 @@ func (s *IndexStorage) Index() (i *index.Index, err error) {
 	d := index.NewDecoder(f, s.h, decOpts...)
 	err = d.Decode(idx)
 	if err != nil {
+		// The file changed and cannot be read. Forget the cached value:
+		// a later file with the size and modification time of the cached
+		// one must be decoded, not served from the cache.
+		s.clearCache()
 		return nil, err
 	}
 
@@ -130,6 +135,12 @@ func (s *IndexStorage) Index() (i *index.Index, err error) {
 	}
 
 	return copyIndex(idx), nil
+}
+
+func (s *IndexStorage) clearCache() {
+	if s.cache != nil {
+		s.cache.Clear()
+	}
 }
 
 // copyIndex returns a deep copy of idx: its own Entries slice, its own
